@@ -114,7 +114,9 @@ def make_replay(e, op, n, syms, segment_level=False):
 
 
 def structural_obligations(e, ops, sizes, role, segment_level_ops=()):
+    from interp import PathLimit
     for op in ops:
+        exploded = None
         for n in sizes:
             if op == "indef" and n == 0:
                 continue
@@ -122,8 +124,16 @@ def structural_obligations(e, ops, sizes, role, segment_level_ops=()):
             what = ("from the MIR, %d symbolic segments, piece-level operations uninterpreted: Piecewise %s applies the piece-level "
                     "operation to every piece in order with the right arguments%s, keeps the number of pieces, their order and every "
                     "breakpoint" % (n, OPNAME[op], " (running knot (end_i, F_i(end_i)))" if op in ("integ", "indef", "iter", "iterref") else ""))
+            if exploded is not None:
+                # the number of paths grows with the number of segments: larger sizes are not attempted once one size hit the limit
+                e.not_encoded(name, what, "not attempted: the encoding at %d segments already exceeded its path/time limit (%s)" % exploded)
+                continue
             try:
                 paths, exp, syms, stubs = structural.run(e, op, n)
+            except PathLimit as ex:
+                exploded = (n, ex)
+                e.not_encoded(name, what, "PathLimit: %s" % ex)
+                continue
             except Exception as ex:
                 e.not_encoded(name, what, "%s: %s" % (type(ex).__name__, ex))
                 continue
